@@ -291,6 +291,8 @@ func engJoin(e *Env) {
 		}
 		// ---- ordering through the relation: every live child is listed, in the order of its parent's field (a child
 		// without parent has a null key: first ascending, last descending)
+		obsSeq := map[string]string{"ASC": "None", "DESC": "None"}
+		var obsAggs []string
 		for _, dir := range []string{"ASC", "DESC"} {
 			q := fmt.Sprintf(`query { %s(order: {author: {rating: %s}}) { k author { rating } } }`, bk, dir)
 			data, errs := x.gql(ctx, q)
@@ -344,6 +346,18 @@ func engJoin(e *Env) {
 				}
 				e.violate(kind, fmt.Sprintf("%s lists k=[%s] (duplicates: %v), the live documents are [%s]%s", q, ks(got), dupl, ks(want), tag), replay(q))
 			}
+			if ks(got) == ks(want) && !dupl {
+				// complete listing: its key sequence goes to the model (order_children)
+				var zs []string
+				for _, v := range seq {
+					if v < 0 {
+						zs = append(zs, "None")
+					} else {
+						zs = append(zs, fmt.Sprintf("Some %d", v))
+					}
+				}
+				obsSeq[dir] = "(Some [" + strings.Join(zs, "; ") + "])"
+			}
 			for i := 1; i < len(seq); i++ {
 				if dir == "ASC" && seq[i-1] > seq[i] || dir == "DESC" && seq[i-1] < seq[i] {
 					e.violate(kind, fmt.Sprintf("%s: the parents' ratings come in the sequence %v (-1 = no parent)", q, seq), replay(q))
@@ -377,6 +391,14 @@ func engJoin(e *Env) {
 						}
 						if mn == nil || b.a < mn.(int64) {
 							mn = b.a
+						}
+					}
+				}
+				{
+					var nv, sv int64
+					if _, e1 := fmt.Sscanf(fmt.Sprint(row["n"]), "%d", &nv); e1 == nil {
+						if _, e2 := fmt.Sscanf(fmt.Sprint(row["s"]), "%d", &sv); e2 == nil {
+							obsAggs = append(obsAggs, fmt.Sprintf("(%v%%nat, (%d, %d))", row["k"], nv, sv))
 						}
 					}
 				}
@@ -483,7 +505,17 @@ func engJoin(e *Env) {
 			}
 			return "[" + strings.Join(out, ";") + "]"
 		}
-		cases = append(cases, fmt.Sprintf("mkJ [%s]%%nat [%s] %s %s %s", strings.Join(ps, ";"), strings.Join(links, ";"), pairList(pairsFromParent), pairList(pairsFromChild), pairList(pairsByFK)))
+		var ratings, pages []string
+		for _, a := range authors {
+			ratings = append(ratings, fmt.Sprintf("(%d%%nat, %d)", a.k, a.a))
+		}
+		for _, b := range books {
+			if b.alive {
+				pages = append(pages, fmt.Sprintf("(%d%%nat, %d)", b.k, b.a))
+			}
+		}
+		cases = append(cases, fmt.Sprintf("mkJ [%s]%%nat [%s] %s %s %s [%s] [%s] %s %s [%s]", strings.Join(ps, ";"), strings.Join(links, ";"), pairList(pairsFromParent), pairList(pairsFromChild), pairList(pairsByFK),
+			strings.Join(ratings, "; "), strings.Join(pages, "; "), obsSeq["ASC"], obsSeq["DESC"], strings.Join(obsAggs, "; ")))
 	}
 	e.writeCasesSharded("cases_C09", "CorrC09", "jcase", cases, 500)
 }
